@@ -22,17 +22,29 @@ func leafString(path string, typ zed.Type, v zcode.Bytes) string {
 // property demands, reported as drift only).  Paths: .field, [index] for
 // arrays, [*] for set elements, {key} for the leaves of a map key and
 // {<leaves of the key>} for the value under that key.
+//
+// fuse may turn a set into an array (set + array fuse to an array); the order
+// of the elements of such an array means nothing.  So the walk of an input
+// value records the paths of its sets (sets), and the walk of the output
+// value treats an array at one of those paths (asSets) like a set.
 type walker struct {
 	leaves []string
 	shape  []string
+	sets   map[string]bool
+	asSets map[string]bool
 }
 
 func leavesOf(val zed.Value) (leaves, shape []string) {
-	var w walker
+	l, s, _ := leavesOfAs(val, nil)
+	return l, s
+}
+
+func leavesOfAs(val zed.Value, asSets map[string]bool) (leaves, shape []string, sets map[string]bool) {
+	w := walker{sets: map[string]bool{}, asSets: asSets}
 	w.walk(val.Type(), val.Bytes(), "")
 	sort.Strings(w.leaves)
 	sort.Strings(w.shape)
-	return w.leaves, w.shape
+	return w.leaves, w.shape, w.sets
 }
 
 func (w *walker) walk(typ zed.Type, b zcode.Bytes, path string) {
@@ -61,10 +73,15 @@ func (w *walker) walk(typ zed.Type, b zcode.Bytes, path string) {
 	case *zed.TypeArray:
 		i := 0
 		for it := b.Iter(); !it.Done(); i++ {
-			w.walk(t.Type, it.Next(), fmt.Sprintf("%s[%d]", path, i))
+			if w.asSets[path] {
+				w.walk(t.Type, it.Next(), path+"[*]")
+			} else {
+				w.walk(t.Type, it.Next(), fmt.Sprintf("%s[%d]", path, i))
+			}
 		}
 		w.shape = append(w.shape, fmt.Sprintf("%s|len=%d", path, i))
 	case *zed.TypeSet:
+		w.sets[path] = true
 		i := 0
 		for it := b.Iter(); !it.Done(); i++ {
 			w.walk(t.Type, it.Next(), path+"[*]")
@@ -73,7 +90,7 @@ func (w *walker) walk(typ zed.Type, b zcode.Bytes, path string) {
 	case *zed.TypeMap:
 		i := 0
 		for it := b.Iter(); !it.Done(); i++ {
-			var kw walker
+			kw := walker{sets: map[string]bool{}}
 			kw.walk(t.KeyType, it.Next(), "")
 			sort.Strings(kw.leaves)
 			for _, l := range kw.leaves {
@@ -208,7 +225,7 @@ func misfit(in, out zed.Type) string {
 			if zed.TypeUnder(m) == inU {
 				return ""
 			}
-			if kindName(m) == kindName(in) && kindName(in) != "primitive" {
+			if k := kindName(m); k != "primitive" && (k == kindName(in) || k == "array" && kindName(in) == "set") {
 				sameKind = true
 			}
 		}
